@@ -297,16 +297,20 @@ func (m *Machine) assume(c value) {
 }
 
 func (e *Explorer) currentModel() Model {
-	if e.modelOK && e.model != nil {
-		return e.model
-	}
+	md, _ := e.currentModelR()
+	return md
+}
+
+// currentModelR always asks the solver (a cached model may predate inputs declared later).
+func (e *Explorer) currentModelR() (Model, Result) {
 	s := e.m.sol
-	if s.Check() == Sat {
+	r := s.Check()
+	if r == Sat {
 		md := s.Model()
 		e.setModel(md)
-		return md
+		return md, r
 	}
-	return nil
+	return nil, r
 }
 
 // assert checks validity of c on this path.
@@ -319,8 +323,12 @@ func (m *Machine) assert(id string, c value, pos string) {
 			ob.Result = "trivial"
 			e.trivialOK++
 		} else {
+			md, r := e.currentModelR()
+			if r == Unsat {
+				panic(pathAbort{"path is infeasible (found when asking for a model)"})
+			}
 			ob.Result = "sat"
-			ob.Model = e.currentModel()
+			ob.Model = md
 			e.Obls = append(e.Obls, ob)
 			panic(pathAbort{"assertion failed concretely"})
 		}
